@@ -323,7 +323,7 @@ def run_cases(ctx, res, cfgs, scripts_for, build_tag_prefix="pm", per_case=False
             # history that causes it (a corrupted heap otherwise kills a later, innocent case)
             outs = []
             for (name, lines) in sc:
-                rc1, o1, e1 = ctx.run_bin(bins[c.tag], "\n".join(lines) + "\n", timeout=180)
+                rc1, o1, e1 = ctx.run_bin(bins[c.tag], "\n".join(lines) + "\n", timeout=900, cpu=15)
                 if rc1 != 0:
                     crashed[name] = (rc1, (e1 or o1)[-300:])
                     outs.append("> CASE %s\n" % name)
